@@ -15,6 +15,7 @@
                  an annotation  none|ir|tr|ar|kr,
                  ov rates entry absent|None|ir|tr|ar|kr|num|list,  lag  the number / the list (x8),
                  dk default     missing|None|scalar|tuple,         dv   the value(s) (x8),
+                 dty literal kind of each default value for the driver: i int | f float | b bool (<<>> = any),
                  sk metadata    none|spec,                          sv   spec default (x8)]
      variant  : [n, set: sequence of [n parameter name, v values]]
 
@@ -55,8 +56,10 @@ EffRate(p) == IF p.ov \in RateNames THEN p.ov          \* the rates argument ove
               ELSE IF p.an \in RateNames THEN p.an     \* ... the annotation
               ELSE "kr"
 Width(p) == IF p.dk = "tuple" THEN Len(p.dv) ELSE 1
+\* an explicit default - whatever its value: 0, 0.0, False, negative, equal to the spec's - always
+\* wins; the metadata spec default is used only when the parameter has no default (missing or None)
 DefaultVals(p) == IF p.dk \in {"scalar", "tuple"} THEN p.dv
-                  ELSE IF p.sk = "spec" THEN <<p.sv>>   \* missing/None default: metadata spec default
+                  ELSE IF p.sk = "spec" THEN <<p.sv>>
                   ELSE <<0>>
 LagVals(p) == IF EffRate(p) = "kr" /\ p.ov \in {"num", "list"} /\ p.lag # <<>>
               THEN [i \in 1..Width(p) |-> p.lag[((i - 1) % Len(p.lag)) + 1]]   \* wrap-extended
@@ -74,6 +77,8 @@ ParamOK(p) ==
     /\ p.sk \in {"none", "spec"}
     /\ (p.ov = "num" => Len(p.lag) = 1) /\ (p.ov = "list" => Len(p.lag) >= 1)
     /\ (p.dk = "scalar" => Len(p.dv) = 1) /\ (p.dk = "tuple" => Len(p.dv) >= 1)
+    /\ Len(p.dty) \in {0, Len(p.dv)} /\ \A i \in 1..Len(p.dty) : p.dty[i] \in {"i", "f", "b"}
+    /\ \A i \in 1..Len(p.dty) : (p.dty[i] = "i" => p.dv[i] % 8 = 0) /\ (p.dty[i] = "b" => p.dv[i] \in {0, 8})
 
 FuncOK(f) ==
     LET ps == f.params IN
@@ -237,17 +242,33 @@ OvFull == {[ov |-> o, lag |-> <<>>] : o \in {"absent", "None", "ir", "tr", "ar",
 OvSmall == {[ov |-> "absent", lag |-> <<>>], [ov |-> "ir", lag |-> <<>>], [ov |-> "ar", lag |-> <<>>],
             [ov |-> "kr", lag |-> <<>>], [ov |-> "num", lag |-> <<4>>], [ov |-> "list", lag |-> <<1, 2>>]}
 OvTiny == {[ov |-> "absent", lag |-> <<>>], [ov |-> "tr", lag |-> <<>>], [ov |-> "num", lag |-> <<4>>]}
+OvOne == {[ov |-> "absent", lag |-> <<>>]}
 OvTwo == {[ov |-> "absent", lag |-> <<>>], [ov |-> "num", lag |-> <<4>>]}
-DfFull == {[dk |-> "missing", dv |-> <<>>], [dk |-> "None", dv |-> <<>>], [dk |-> "scalar", dv |-> <<12>>],
-           [dk |-> "tuple", dv |-> <<20>>], [dk |-> "tuple", dv |-> <<28, 36>>],
-           [dk |-> "tuple", dv |-> <<44, 52, 60>>], [dk |-> "tuple", dv |-> <<68, 76, 84, 92>>]}
-DfSmall == {[dk |-> "missing", dv |-> <<>>], [dk |-> "scalar", dv |-> <<12>>], [dk |-> "tuple", dv |-> <<28, 36>>],
-            [dk |-> "tuple", dv |-> <<44, 52, 60>>]}
-DfTiny == {[dk |-> "scalar", dv |-> <<12>>], [dk |-> "tuple", dv |-> <<28, 36>>]}
-DfLong == DfFull \cup {[dk |-> "tuple", dv |-> [i \in 1..n |-> 100 + i]] : n \in {7, 17, 33}}
-DfImpl == DfSmall \cup {[dk |-> "tuple", dv |-> [i \in 1..17 |-> 100 + i]]}
+\* default choices: D = shape oriented (values made distinct per parameter by AddParam),
+\*                  V = value oriented (used exactly as written; dty = literal kind per value:
+\*                      "i" int, "f" float, "b" bool - True is 1.0, False is 0.0 in the control array)
+D(dk, dv) == [dk |-> dk, dv |-> dv, dty |-> <<>>, fix |-> FALSE]
+V(dk, dv, dty) == [dk |-> dk, dv |-> dv, dty |-> dty, fix |-> TRUE]
+DfFull == {D("missing", <<>>), D("None", <<>>), D("scalar", <<12>>), D("tuple", <<20>>), D("tuple", <<28, 36>>),
+           D("tuple", <<44, 52, 60>>), D("tuple", <<68, 76, 84, 92>>)}
+DfSmall == {D("missing", <<>>), D("scalar", <<12>>), D("tuple", <<28, 36>>), D("tuple", <<44, 52, 60>>)}
+DfTiny == {D("scalar", <<12>>), D("tuple", <<28, 36>>)}
+DfLong == DfFull \cup {D("tuple", [i \in 1..n |-> 100 + i]) : n \in {7, 17, 33}}
+DfImpl == DfSmall \cup {D("tuple", [i \in 1..17 |-> 100 + i])}
+\* values that matter: zeros of every literal kind, booleans, negatives, the spec default itself (440) and
+\* another value, tuples made of / containing zeros
+DfVals == {D("missing", <<>>), D("None", <<>>),
+           V("scalar", <<0>>, <<"i">>), V("scalar", <<0>>, <<"f">>), V("scalar", <<0>>, <<"b">>),
+           V("scalar", <<8>>, <<"b">>), V("scalar", <<0 - 12>>, <<"f">>), V("scalar", <<3520>>, <<"i">>),
+           V("scalar", <<12>>, <<"f">>),
+           V("tuple", <<0>>, <<"i">>), V("tuple", <<0, 0>>, <<"i", "f">>),
+           V("tuple", <<0, 40, 0, 0 - 8>>, <<"b", "i", "f", "i">>)}
+DfSim == DfLong \cup DfVals
+DfZero == {D("None", <<>>), V("scalar", <<0>>, <<"i">>), V("scalar", <<0>>, <<"b">>), V("scalar", <<0 - 12>>, <<"f">>),
+           V("tuple", <<0, 40, 0>>, <<"f", "i", "b">>)}
 SpNone == {[sk |-> "none", sv |-> 0]}
 SpBoth == {[sk |-> "none", sv |-> 0], [sk |-> "spec", sv |-> 440 * 8]}
+SpThree == SpBoth \cup {[sk |-> "spec", sv |-> 0 - 4]}
 AnAll == {"none"} \cup RateNames
 AnSmall == {"none", "ir", "ar"}
 AnTiny == {"none", "tr"}
@@ -256,12 +277,11 @@ AnNone == {"none"}
 NParams(dd) == Len(AllParams(dd))
 LastF(dd) == Len(dd.funcs)
 Named(dd, k, j) == "f" \o ToString(k) \o "p" \o ToString(j)
-\* values are made distinguishable per parameter (so a swapped slot shows in the default array)
+\* lags are made distinguishable per parameter (defaults: see AddParam)
 WithParam(dd, p) ==
     LET k == NParams(dd) IN
     [dd EXCEPT !.funcs[LastF(dd)].params =
         Append(@, [n |-> Named(dd, LastF(dd), Len(@) + 1),
-                   dv |-> [i \in 1..Len(p.dv) |-> p.dv[i] + 256 * k],
                    lag |-> [i \in 1..Len(p.lag) |-> IF p.lag[i] = 0 THEN 0 ELSE p.lag[i] + 8 * k]] @@ p)]
 
 Pick(S) == IF SimMode THEN {RandomElement(S)} ELSE S
@@ -277,27 +297,29 @@ Repair(ps, p) ==
         p1 == IF p.dk = "missing" /\ ~missOK THEN [p EXCEPT !.dk = "None"] ELSE p
         p2 == IF absPrev THEN [p1 EXCEPT !.ov = "absent", !.lag = <<>>]
               ELSE IF p1.ov = "absent" /\ Len(ps) < 6 THEN [p1 EXCEPT !.ov = "None"] ELSE p1
-        p3 == IF p2.sk = "spec" /\ p2.dk \notin {"missing", "None"} THEN [p2 EXCEPT !.sk = "none", !.sv = 0] ELSE p2
-    IN p3
+    IN p2
 
 AddBound == /\ phase = "build" /\ d.variants = <<>> /\ NParams(d) < MaxTotal
             /\ LET ps == d.funcs[LastF(d)].params IN
                /\ Len(ps) < MaxBound /\ \A j \in 1..Len(ps) : ps[j].bk = "bound"
             /\ \E v \in BoundVals :
                   d' = WithParam(d, [bk |-> "bound", bv |-> v, an |-> "none", ov |-> "absent", lag |-> <<>>,
-                                     dk |-> "missing", dv |-> <<>>, sk |-> "none", sv |-> 0])
+                                     dk |-> "missing", dv |-> <<>>, dty |-> <<>>, sk |-> "none", sv |-> 0])
             /\ UNCHANGED phase
 
 AddParam == /\ phase = "build" /\ d.variants = <<>> /\ NParams(d) < MaxTotal
             /\ Len(CtlParams(d.funcs[LastF(d)])) < MaxParams
             /\ \E an \in Pick(Annots), o \in Pick(OvChoices), df \in Pick(DfChoices), sp \in Pick(SpChoices) :
-                  LET p0 == [bk |-> "ctl", bv |-> 0, an |-> an, ov |-> o.ov, lag |-> o.lag,
-                             dk |-> df.dk, dv |-> df.dv, sk |-> sp.sk, sv |-> sp.sv]
+                  LET k == NParams(d)
+                      \* shape-oriented defaults are made distinct per parameter (a swapped slot shows in
+                      \* the default array); value-oriented ones are used exactly as written
+                      p0 == [bk |-> "ctl", bv |-> 0, an |-> an, ov |-> o.ov, lag |-> o.lag, dk |-> df.dk,
+                             dv |-> IF df.fix THEN df.dv ELSE [i \in 1..Len(df.dv) |-> df.dv[i] + 256 * k],
+                             dty |-> df.dty, sk |-> sp.sk, sv |-> sp.sv]
                       p == IF SimMode THEN Repair(d.funcs[LastF(d)].params, p0) ELSE p0
                       dd == WithParam(d, p) IN
                   /\ FuncOK(dd.funcs[LastF(dd)]) = TRUE     \* "= TRUE": evaluated as a value (TLC would
                                                             \* unfold the quantifiers of an action conjunct recursively)
-                  /\ (p.sk = "spec" => p.dk \in {"missing", "None"})   \* a spec only matters then
                   /\ d' = dd
             /\ UNCHANGED phase
 
@@ -312,8 +334,9 @@ AddVariant ==
     /\ phase = "build" /\ Len(d.variants) < MaxVariants
     /\ LET L == Layout(d) IN
        /\ Len(L) >= 1
-       /\ \E i \in 1..Len(L), i2 \in 0..Len(L), w \in 1..2 :
-             LET a1 == [n |-> L[i].n, v |-> [c \in 1..Min2(w, L[i].w) |-> 800 + 8 * (10 * Len(d.variants) + c)]]
+       /\ \E i \in 1..Len(L), i2 \in 0..Len(L), w \in 1..2, zero \in BOOLEAN :
+             LET a1 == [n |-> L[i].n, v |-> [c \in 1..Min2(w, L[i].w) |->
+                                                IF zero THEN 0 ELSE 800 + 8 * (10 * Len(d.variants) + c)]]
                  a2 == IF i2 = 0 \/ i2 = i THEN <<>>
                        ELSE <<[n |-> L[i2].n, v |-> [c \in 1..L[i2].w |-> 1600 + 8 * c]]>> IN
              d' = [d EXCEPT !.variants = Append(@, [n |-> "v" \o ToString(Len(@)), set |-> <<a1>> \o a2])]
